@@ -1,8 +1,10 @@
+import Chartparse.Proofs.EventsProofs
 import Chartparse.Proofs.TrackProofs
 import Chartparse.Proofs.Hint
 import Chartparse.Proofs.ChainProofs
 /-! Property theorems of C11 (statements only; helper lemmas live in `Proofs/`). -/
 namespace Chartparse.Props.C11
+open Chartparse.Inst Chartparse.Meta
 open Chartparse Chartparse.Tempo
 
 /-- C11, hint invariance: any hint not beyond the governing event gives the governing index -/
@@ -104,5 +106,30 @@ theorem C11_notes :
     (hsorted : (evs.map (·.tick)).Pairwise (· < ·)),
     ∀ n ∈ ns, tsAt res evs (n.tick : Int) 0 = .ok (n.ts, n.idx) :=
   @Chartparse.Inst.notes_ts
+
+/-- **C11 / C01 for the global events of a parsed chart**: every text, section and lyric event carries exactly the
+    un-hinted query's timestamp and governing index for its tick -/
+theorem C11_chart_events :
+    ∀ (secs : Sections) (want : Option (List (Nat × Nat))) (c : Chart) (h : parseSections secs want = .ok c),
+    ∀ e, (e ∈ c.events.texts ∨ e ∈ c.events.sections ∨ e ∈ c.events.lyrics) →
+      tsAt c.res c.sync.bpms (e.tick : Int) 0 = .ok (e.ts, e.idx) :=
+  @Chartparse.chart_events_ts
+
+/-- **C11 / C01 for a track built on a trustworthy map**: notes (start), star-power phrases and track events -/
+theorem C11_track_events :
+    ∀ (res : Int) (evs : List BpmEv) (hs : (evs.map (·.tick)).Pairwise (· < ·))
+    (nd : List NDatum) (sd : List Phrase) (td : List (Nat × Str)) (t : Track) (h : buildTrack res evs nd sd td = .ok t),
+    (∀ n ∈ t.notes, tsAt res evs (n.tick : Int) 0 = .ok (n.ts, n.idx)) ∧
+    (∀ e ∈ t.sps, tsAt res evs (e.tick : Int) 0 = .ok (e.ts, e.idx)) ∧
+    (∀ e ∈ t.tes, tsAt res evs (e.tick : Int) 0 = .ok (e.ts, e.idx)) ∧
+    t.sps.map (fun e => (⟨e.tick, e.len⟩ : Phrase)) = sd ∧ t.tes.map (fun e => (e.tick, e.value)) = td :=
+  @Chartparse.buildTrack_ts
+
+/-- **C11 / C01 for text, section, lyric and track events** -/
+theorem C11_value_events :
+    ∀ (res : Int) (evs : List BpmEv) (hs : (evs.map (·.tick)).Pairwise (· < ·))
+    (l : List (Nat × Str)) (out : List ValEv) (h : buildValEvs res evs l = .ok out),
+    out.map (fun e => (e.tick, e.value)) = l ∧ ∀ e ∈ out, tsAt res evs (e.tick : Int) 0 = .ok (e.ts, e.idx) :=
+  @Chartparse.buildValEvs_spec
 
 end Chartparse.Props.C11
